@@ -165,6 +165,19 @@ def eval_C19(item):
                 else:
                     v.update_slice(ev[1])
                     cur_slice = v.slice
+                    # the contours of all live selections are redrawn for the slice now displayed
+                    if nd == 3:
+                        for slot_, sel_ in v.hub.selections.items():
+                            if not sel_ or sel_[0] is None:
+                                continue
+                            ids_ = [int(x_.idx) for x_ in sel_]
+                            px_ = set(structs[ids_[0]]['pixsub']) if v.hub.select_subtree[slot_] else set(q_ for i_ in ids_ for q_ in structs[i_]['pixsub'])
+                            full_ = np.zeros(int(np.prod(shape)), dtype=bool)
+                            full_[sorted(px_)] = True
+                            want_ = full_.reshape(shape)[cur_slice]
+                            got_ = masks.get(slot_)
+                            if got_ is None or not np.array_equal(np.asarray(got_, dtype=bool), want_):
+                                res['pred'].append('after moving to slice %d the contour of slot %d is not the mask of its selection in that slice' % (cur_slice, slot_))
                     continue
         except Exception as e:
             res['pred'].append('event %r raised %s: %s' % (ev, type(e).__name__, str(e)[:80]))
@@ -255,11 +268,34 @@ def eval_C19(item):
                         got_rows.append(row_ids[hit[0]] if hit else -1)
                 if sorted(got_rows) != want_ids:
                     res['pred'].append('highlighted scatter points belong to structures %r, selection (slot %d) is %r' % (sorted(got_rows), slot, want_ids))
+        # nothing of an earlier selection stays drawn: every highlight artist on the three axes belongs to a live slot
+        stale = [c_ for c_ in v.ax_image.collections if not any(c_ is x_ for x_ in v.selected_contour.values())]
+        if stale:
+            res['pred'].append('%d contour(s) of earlier selections are still drawn on the image after %r' % (len(stale), ev[:2]))
+        stale = [c_ for c_ in v.ax_dendrogram.collections if c_ is not v.lines and not any(c_ is x_ for x_ in v.selected_lines.values())]
+        if stale:
+            res['pred'].append('%d highlighted line collection(s) of earlier selections are still drawn on the tree after %r' % (len(stale), ev[:2]))
+        live = [x_ for x_ in sc.lines2d.values() if x_ is not None]
+        if len(sc.axes.lines) != 1 + len(live) or any(not any(l_ is x_ for x_ in live) for l_ in list(sc.axes.lines)[1:]):
+            res['pred'].append('the scatter plot shows %d point sets for %d live highlights after %r' % (len(sc.axes.lines) - 1, len(live), ev[:2]))
         # notification: every registered callback exactly once, with the slot
         new = calls[n_before:]
         n_before = len(calls)
         if sorted(new) != sorted((c, slot) for c in range(item['ncb'])):
             res['pred'].append('callbacks notified %r for a change of slot %d (registered %d)' % (new, slot, item['ncb']))
+    # a view linked late shows the selections that already exist
+    try:
+        with warnings.catch_warnings():
+            warnings.simplefilter('ignore')
+            sc2 = Scatter(d, v.hub, cat, 'x_cen', 'y_cen')
+        for slot_, ln in sc.lines2d.items():
+            a_ = sorted(zip(np.asarray(ln.get_xdata(), dtype=float).tolist(), np.asarray(ln.get_ydata(), dtype=float).tolist()), key=repr) if ln is not None else []
+            l2 = sc2.lines2d.get(slot_)
+            b_ = sorted(zip(np.asarray(l2.get_xdata(), dtype=float).tolist(), np.asarray(l2.get_ydata(), dtype=float).tolist()), key=repr) if l2 is not None else []
+            if repr(a_) != repr(b_):
+                res['pred'].append('a scatter view linked after the events highlights %r for slot %r, the first view %r' % (b_[:4], slot_, a_[:4]))
+    except Exception as e:  # noqa
+        res['pred'].append('linking a second scatter view raised %s: %s' % (type(e).__name__, str(e)[:60]))
     res['nontrivial'] = len(structs) >= 2 and len(item['events']) >= 2
     plt.close('all')
     return res
